@@ -15,11 +15,12 @@ LEVEL = "exploration"
 RULE = ("hostile inputs - random bytes (several distributions, 0..64 KiB), valid streams with bit flips / byte inserts / deletes "
         "/ splices / truncation, and structure-aware hostile streams from the independent wire encoder (declared frame, row and "
         "string lengths up to 2^63, table sizes up to 2^32, 10^5 entries, quoted triples nested past the protobuf recursion "
-        "limit, options rows in odd places, stream names / strings holding format directives with huge field widths on error paths, version-2 streams declaring one prefix label 3-200 times with different namespaces, gzip/zlib/bz2/xz/deflate members that would inflate to 0.3-64 MB, options rows with enum/version values the schema does not name, well-formed streams whose strings (language tag, lexical form, datatype, name, prefix, blank-node label, stream name, namespace name) are long single-class runs ending in one odd character, 10^3..10^6 empty frames alone and in front of a well-formed frame (3*10^5 of them always through all six entry points, 10^6 through two), invalid UTF-8, unknown fields, groups, one 16-64 KiB prefix (or name) entry combined with thousands of short entries overwriting 8 slots of the other table - through the entry points that keep no statement; 200-400 namespace declarations followed by 3000-20000 tiny frames) - are fed from BytesIO, "
+        "limit, options rows in odd places, stream names / strings holding format directives with huge field widths on error paths, version-2 streams declaring one prefix label 3-200 times with different namespaces, gzip/zlib/bz2/xz/deflate members that would inflate to 0.3-64 MB, options rows with enum/version values the schema does not name, well-formed streams whose strings (language tag, lexical form, datatype, name, prefix, blank-node label, stream name, namespace name) are long single-class runs ending in one odd character, 10^3..10^6 empty frames alone and in front of a well-formed frame (3*10^5 of them always through all six entry points, 10^6 through two), invalid UTF-8, unknown fields, groups, one 16-64 KiB prefix (or name) entry combined with thousands of short entries overwriting 8 slots of the other table - through the entry points that keep no statement; 200-400 namespace declarations followed by 3000-20000 tiny frames; one frame of 10^5 - 3*10^5 four-byte rows) - are fed from BytesIO, "
         "real files and non-seekable raw / buffered sources to the six parse entry points inside a watchdogged child process with faulthandler. Per input the "
         "child journals start/end, outcome, CPU time, a logical step count (sys.monitoring PY_START inside pyjelly) and the "
         "growth of the resident high-water mark. Violations: interpreter killed by a signal; a non-Exception BaseException; "
         "CPU > 2 s + 1 ms/byte or steps > 20000 + 400/byte (re-checked alone with a 10x budget before being believed); "
+        "for three input families that can be made any size (one frame of n four-byte rows, n name entries in one frame, n one-triple frames) the same shape at 4n may cost at most 8x the CPU of n (judged only when the large run takes >= 3 s, and only after a second measurement); "
         "resident growth > 32 MiB + 1 KiB per input byte (memory proportional to the ACTUAL input, e.g. 10^5 skipped empty frames, is allowed); a MemoryError/RecursionError raised from pyjelly code. Non-trivial: inputs that "
         "got past framing (>= 1 row decoded) before failing or returning; distinct by (input hash, entry point).")
 ASSUMPTIONS = [
@@ -113,7 +114,7 @@ def hostile(rng):
     big = rng.choice([1 << 20, (1 << 31) - 1, 1 << 31, 1 << 32, 1 << 40, 1 << 62, (1 << 63) - 1, (1 << 64) - 1])
     kind = rng.choice(["frame-length", "row-length", "string-length", "table-size", "many-entries", "deep-nesting",
                        "odd-options", "empty-frames", "bad-utf8", "unknown-fields", "many-metadata", "nondelimited-huge",
-                       "entry-id-huge", "ref-huge", "options-repeat-flood", "awkward-strings", "awkward-strings", "enum-values", "compressed-bomb", "namespace-redeclared", "format-directive", "long-entry-many-slots", "declarations-then-many-frames"])
+                       "entry-id-huge", "ref-huge", "options-repeat-flood", "awkward-strings", "awkward-strings", "enum-values", "compressed-bomb", "namespace-redeclared", "format-directive", "long-entry-many-slots", "declarations-then-many-frames", "one-huge-frame"])
     head = wire.enc_stream([{"rows": [("options", _opts())]}], True)
     if kind == "frame-length":
         return kind, rng.choice([b"", head]) + wire.enc_varint(big) + rng.randbytes(rng.randint(0, 40))
@@ -253,12 +254,23 @@ def hostile(rng):
                 ("triple", {"s": ("iri", rng.choice([0, 9, (1 << 32) - 1]), rng.choice([17, (1 << 32) - 1])),
                             "p": ("bnode", "b"), "o": ("lit", "x", "dt", rng.choice([0, 9, (1 << 32) - 1]))})]
         return kind, wire.enc_stream([{"rows": rows}], True)
+    if kind == "one-huge-frame":
+        return kind, one_huge_frame(rng.choice([100_000, 300_000]))
     if kind == "declarations-then-many-frames":
         return kind, declarations_then_frames(rng.choice([200, 300, 400]), rng.choice([3000, 20000]), rng.choice(["empty", "empty", "metadata"]))
     if kind == "long-entry-many-slots":
         return kind, long_entry_many_slots(rng.choice([16, 32, 48]) << 10, rng.choice([1000, 3000]), rng.choice(["prefix", "prefix", "name"]))
     rows = [("options", _opts())] * rng.choice([100, 5000])
     return "options-repeat-flood", wire.enc_stream([{"rows": rows}], True)
+
+
+def one_huge_frame(n: int) -> bytes:
+    """ONE frame with n rows: options, a name entry, a triple, then n all-repeated triple rows of four bytes each - work
+    per row must not grow with the number of rows in the frame."""
+    head = [("options", _opts()), ("name", {"id": 0, "value": "urn:x"}),
+            ("triple", {"s": ("iri", 0, 0), "p": ("iri", 0, 1), "o": ("bnode", "b")})]
+    body = b"".join(wire.f_bytes(1, wire.enc_row(r)) for r in head) + wire.f_bytes(1, wire.enc_row(("triple", {}))) * n
+    return wire.enc_varint(len(body)) + body
 
 
 def declarations_then_frames(d: int, n: int, frames: str) -> bytes:
@@ -331,6 +343,8 @@ def make_inputs(rng, n: int, first_batch: bool = False) -> list:
             cls, name, data = "hostile", "option-field-extreme", wire.enc_stream([{"rows": rows}], True)
         elif first_batch and k == 2 + len(FIXED_DIRECTIVES) + len(FIXED_OPTION_EXTREMES):
             cls, name, data = "hostile", "long-entry-many-slots", long_entry_many_slots(64 << 10, 4000, "prefix")
+        elif first_batch and k == 4 + len(FIXED_DIRECTIVES) + len(FIXED_OPTION_EXTREMES):
+            cls, name, data = "hostile", "one-huge-frame", one_huge_frame(300_000)
         elif first_batch and k == 3 + len(FIXED_DIRECTIVES) + len(FIXED_OPTION_EXTREMES):
             cls, name, data = "hostile", "declarations-then-many-frames", declarations_then_frames(300, 20000, "empty")
         elif x < .3:
@@ -345,6 +359,8 @@ def make_inputs(rng, n: int, first_batch: bool = False) -> list:
             entries = list(ENTRY_NAMES) if k == 0 else ["generic:flat", "rdflib:grouped"]
         elif first_batch and k < 2 + len(FIXED_DIRECTIVES) + len(FIXED_OPTION_EXTREMES):
             entries = list(ENTRY_NAMES)
+        if name == "one-huge-frame":
+            entries = ["generic:flat", "rdflib:flat"]
         if name == "declarations-then-many-frames":
             entries = list(ENTRY_NAMES)
         if name == "long-entry-many-slots":
@@ -433,9 +449,66 @@ def confirm_alone(item: dict, entry: str, workdir: str):
     return (j[0], j[1]) if j else (None, "within budget when run alone")
 
 
+SCALING_FAMILIES = {
+    # name -> (builder(n) -> bytes, small n, entries); the large size is 4 x the small one
+    "one-huge-frame": (lambda n: one_huge_frame(n), 100_000, ["generic:flat", "rdflib:flat"]),
+    "many-name-entries-in-one-frame": (lambda n: wire.enc_stream(
+        [{"rows": [("options", _opts(max_name_table_size=4096))] + [("name", {"id": (k % 4096) + 1, "value": "n"}) for k in range(n)]}], True),
+        60_000, ["generic:flat", "rdflib:flat"]),
+    "many-one-triple-frames": (lambda n: valid_tail() * n, 10_000, ["generic:flat", "rdflib:flat", "generic:grouped"]),
+}
+
+
+def _scaling_pair(name: str, workdir: str, tag: str, only_entry: str | None = None):
+    build, n, entries = SCALING_FAMILIES[name]
+    if only_entry:
+        entries = [only_entry]
+    items = []
+    for i, size in enumerate((n, 4 * n)):
+        data = build(size)
+        items.append({"i": i, "class": "hostile", "name": f"scaling:{name}", "hex": data.hex(), "entries": entries,
+                      "source": "bytesio", "len": len(data)})
+    rc, err, timed_out, recs = run_child(items, workdir, tag, timeout=900, cpu_limit=600, per_input_timeout=400)
+    cpu = {(r["i"], r["entry"]): r["cpu"] for r in recs if r["ev"] == "end"}
+    return items, cpu, (rc, timed_out, err)
+
+
+def scaling_probe(ctx, workdir: str):
+    """'Terminates promptly' as a SCALING statement: for input families that can be made any size, the same shape at four times
+    the size may cost at most eight times the CPU (linear would be four) - judged only when the large run is slow enough to
+    measure (>= 3 s CPU), and only after the pair was measured a second time on its own."""
+    for name in SCALING_FAMILIES:
+        if ctx.out_of_time():
+            return
+        items, cpu, st = _scaling_pair(name, workdir, f"scale-{ctx.shard}")
+        ctx.observe("scaling-pairs-measured")
+        for entry in SCALING_FAMILIES[name][2]:
+            a, b = cpu.get((0, entry)), cpu.get((1, entry))
+            if a is None:
+                ctx.inconc(f"scaling probe {name}/{entry}: the SMALL input did not finish (rc={st[0]}, timeout={st[1]})")
+                continue
+            suspect = b is None or (b >= 3.0 and b > 8 * max(a, 0.05))
+            ctx.observe(f"scaling:{name}:{entry}:{'suspect' if suspect else 'linear-or-too-fast-to-judge'}")
+            if suspect:
+                _it2, cpu2, st2 = _scaling_pair(name, workdir, f"scale-confirm-{ctx.shard}", only_entry=entry)
+                a2, b2 = cpu2.get((0, entry)), cpu2.get((1, entry))
+                if a2 is not None and (b2 is None or (b2 >= 3.0 and b2 > 8 * max(a2, 0.05))):
+                    ctx.violation({"clause": "superlinear-time", "entry": entry, "input_class": "hostile", "name": f"scaling:{name}",
+                                   "len": items[1]["len"], "source": "bytesio", "hex": "", "family": name,
+                                   "summary": f"{name}: {entry} needs {a2:.2f} s CPU for {items[0]['len']} bytes and "
+                                              + (f"{b2:.2f} s" if b2 is not None else "more than 400 s (not finished)")
+                                              + f" for {items[1]['len']} bytes of the same shape: four times the input, "
+                                              + (f"{b2 / max(a2, 0.05):.1f}" if b2 is not None else "> 100")
+                                              + " times the time (confirmed by a second measurement)"})
+            ctx.case(("scaling", name, entry), True, sample={"kind": "scaling pair", "family": name, "entry": entry,
+                                                             "cpu_small": a, "cpu_large": b, "bytes": [items[0]["len"], items[1]["len"]]})
+
+
 def run_shard(ctx):
     workdir = tempfile.mkdtemp(prefix="rv-c17-")
     try:
+        if ctx.shard == 1 % ctx.nshards and __debug__:
+            scaling_probe(ctx, workdir)
         b = 0
         while not ctx.out_of_time():
             rng = ctx.rng("batch", b)
@@ -526,6 +599,16 @@ def run_shard(ctx):
 
 
 def replay(w: dict):
+    if w.get("clause") == "superlinear-time":
+        workdir = tempfile.mkdtemp(prefix="rv-c17-")
+        try:
+            items, cpu, _st = _scaling_pair(w["family"], workdir, "replay", only_entry=w["entry"])
+            a, b = cpu.get((0, w["entry"])), cpu.get((1, w["entry"]))
+            if a is not None and (b is None or (b >= 3.0 and b > 8 * max(a, 0.05))):
+                return {"clause": "superlinear-time", "summary": f"{a} s vs {b} s"}
+            return None
+        finally:
+            shutil.rmtree(workdir, ignore_errors=True)
     if w["len"] > 4096:
         return {"clause": w["clause"], "summary": "input larger than 4 KiB is not stored; re-run ./check C17 with the same VERIF_SEED"}
     workdir = tempfile.mkdtemp(prefix="rv-c17-")
